@@ -89,6 +89,9 @@ func c04(c *Ctx) {
 	r.Floor("C04.R3", 2)
 	r.Floor("C04.R4", 3)
 	r.Floor("C04.R5", 2)
+	// ---- R6 the mocker-level When hands the caller's condition arguments to the When
+	r.Floor("C04.R6", 2)
+	checkValuesForwarded(p, r, "C04.R6", map[string]bool{"When": true, "In": true, "Matches": true}, "condition arguments")
 	root := p.FuncsIn("")
 	when := p.NamedType("", "When")
 	matcherT := p.NamedType("", "Matcher")
